@@ -41,7 +41,7 @@
   Go runtime faults / raised issues are explicit: every function that can raise in Go answers `Except Code _`.
   Attribute types are a small alphabet with a decidable instance test (`inst`); nothing in this file depends on which.
   Not modelled (outside the universe the driver accepts): `final => true`, functions, type parameters, annotations,
-  constants given through `constants => {}`, a `serialization` list or a hash literal with a repeated name.
+  constants given through `constants => {}`, a hash literal with a repeated key.
   Core-only file (linked into the driver).
 -/
 namespace Pcore.Object
@@ -89,6 +89,7 @@ inductive Code where
   | overriddenNotFound | overrideTypeMismatch
   | equalityAttributeNotFound | equalityOnConstant | equalityRedefined
   | serializationAttributeNotFound | serializationBadKind | serializationRequiredAfterOptional
+  | serializationDuplicateAttribute
   | illegalArguments | missingRequiredAttribute | attributeHasNoValue
   | fault
   deriving DecidableEq, Repr, Inhabited
@@ -107,6 +108,7 @@ def Code.toString : Code → String
   | .serializationAttributeNotFound => "reported SERIALIZATION_ATTRIBUTE_NOT_FOUND"
   | .serializationBadKind => "reported SERIALIZATION_BAD_KIND"
   | .serializationRequiredAfterOptional => "reported SERIALIZATION_REQUIRED_AFTER_OPTIONAL"
+  | .serializationDuplicateAttribute => "reported SERIALIZATION_DUPLICATE_ATTRIBUTE"
   | .illegalArguments => "reported ILLEGAL_ARGUMENTS"
   | .missingRequiredAttribute => "reported MISSING_REQUIRED_ATTRIBUTE"
   | .attributeHasNoValue => "reported ATTRIBUTE_HAS_NO_VALUE"
@@ -262,16 +264,18 @@ def checkEquality (own : List Attr) (parent : OType) : List String → Except Co
       else if !parent.isEmpty && (equalityAttributes parent).contains n then .error .equalityRedefined
       else checkEquality own parent ns
 
-def checkSerialization (own : List Attr) (parent : OType) : Bool → List String → Except Code Unit
-  | _, [] => .ok ()
-  | optFound, n :: ns =>
+/-- the serialization loop of InitFromHash: `optFound` = an optional attribute was seen, `seen` = the names stored so far
+    (after the fix "a serialization list naming an attribute twice was accepted …") -/
+def checkSerialization (own : List Attr) (parent : OType) : Bool → List String → List String → Except Code Unit
+  | _, _, [] => .ok ()
+  | optFound, seen, n :: ns =>
     match lookupMember own parent n with
     | none => .error .serializationAttributeNotFound
     | some a =>
       if a.kind == .constant || a.kind == .derived then .error .serializationBadKind
-      else if a.optional then checkSerialization own parent true ns
-      else if optFound then .error .serializationRequiredAfterOptional
-      else checkSerialization own parent optFound ns
+      else if !a.optional && optFound then .error .serializationRequiredAfterOptional
+      else if seen.contains n then .error .serializationDuplicateAttribute
+      else checkSerialization own parent (optFound || a.optional) (n :: seen) ns
 
 def EqDecl.toList? : EqDecl → Option (List String)
   | .absent => none
@@ -293,7 +297,7 @@ def define (env : List OType) (d : Def) : Except Code OType :=
     match checkEquality attrs parent (d.equality.toList?.getD []) with
     | .error c => .error c
     | .ok () =>
-      match checkSerialization attrs parent false (d.serialization.getD []) with
+      match checkSerialization attrs parent false [] (d.serialization.getD []) with
       | .error c => .error c
       | .ok () =>
         .ok ({ id := env.length, attrs := attrs, equality := d.equality.toList?,
